@@ -22,7 +22,7 @@ func c17Grid(tier string) []pagerSpec {
 	wraps := []int{0}
 	noises := []bool{false}
 	if tier == "thorough" {
-		wraps = []int{0, 1, 2, 3}
+		wraps = []int{0, 1, 2, 3, 4, 5}
 		noises = []bool{false, true}
 	}
 	for _, fam := range pagerFamilies {
@@ -69,7 +69,7 @@ func c17Specs(tier string) []pagerSpec {
 func init() {
 	register(&Prop{
 		ID:   "C17",
-		Rule: "exhaustive enumeration of conventional pagers: N in 2..12 x k in 1..N (77 pairs) x 8 URL families (query ?page=, query with another numeric parameter, path /page/k, bare path /k, file suffix -k.html, _pk.html, and -k.html / _Pagek.html under a dated directory /2014/07/) on 4 rotating origins (http, https, another host, a port) x href form {absolute, root-relative, path-/query-relative} x page URL {without, with trailing slash for the two path families} x {3 separators x 3 current-page decorations for the page-number algorithm; 5 Next/Prev label pairs x {with, without numbered links} for the prev/next algorithm}; thorough additionally x 4 wrappers x {with, without surrounding article noise}. Expected links are computed by resolving the generated href against the page URL. Every grid cell is a distinct non-trivial case.",
+		Rule: "exhaustive enumeration of conventional pagers: N in 2..12 x k in 1..N (77 pairs) x 8 URL families under 2 base paths (/story/alpha, /articles/story), page URL with / without a #fragment (query ?page=, query with another numeric parameter, path /page/k, bare path /k, file suffix -k.html, _pk.html, and -k.html / _Pagek.html under a dated directory /2014/07/) on 4 rotating origins (http, https, another host, a port) x href form {absolute, root-relative, path-/query-relative} x page URL {without, with trailing slash for the two path families} x {3 separators x 3 current-page decorations for the page-number algorithm; 6 Next/Prev label pairs (incl. « Previous) x {with, without numbered links} for the prev/next algorithm}; wrappers {plain div, div.article-footer, div#sidebar} rotate in quick; thorough additionally x 6 wrappers x {with, without surrounding article noise}. Expected links are computed by resolving the generated href against the page URL. Every grid cell is a distinct non-trivial case.",
 		Assumptions: []string{
 			"URLs are compared in canonical form (lower-case scheme/host, no trailing slash, raw query, fragment ignored)",
 			"for the prev/next algorithm nothing is demanded of a side that has no labelled anchor",
@@ -87,6 +87,19 @@ func runC17(c *Ctx, idx int) {
 	sp := c17Specs(c.Tier)[idx]
 	// the same pagers are met on several origins in the course of one process
 	sp.Origin = (idx/16 + idx) % len(pagerOrigins)
+	// likewise base path and fragment; in the quick tier also the wrapper (the thorough grid enumerates it)
+	sp.Base = int(mix64(uint64(idx)*3+1) % 2)
+	sp.Frag = mix64(uint64(idx)*3+2)%4 == 0
+	if c.Quick() {
+		sp.Wrap = []int{0, 0, 4, 5}[mix64(uint64(idx)*3+3)%4]
+	}
+	if sp.Wrap == 5 {
+		// a pager inside a container that calls itself a sidebar, on a URL the scorer
+		// dislikes as well, is not what the property calls a conventional pager: the
+		// prev/next scorer is designed to distrust it (two negative signals). One signal
+		// at a time is explored.
+		sp.Base = 0
+	}
 	r := c.RNG(idx, 1)
 	pg := conventionalPager(sp, r)
 	page := mustURL(pg.PageURL)
